@@ -152,6 +152,30 @@ PROPS.update({
         exhaustive_models=True, assumptions=COMMON_ASSUME, probe_cap=40, chunks=14),
 })
 
+PROPS.update({
+    'C15': dict(
+        models=[dict(name='MC_Api', module='MC_Api', constants=dict(MaxOps=2, Alts=1, Emit=True, Slice='SEED', Of=16, Of2=8),
+                     thorough=dict(Of=2, Of2=4), invariants=['InvIdeal', 'InvShapes', 'InvIdentities'])],
+        gens=[dict(scenario='sessions', n=dict(quick=2500, thorough=50000))],
+        events=['ident', 'isect', 'diff'],
+        rule='cases = API sessions: (a) every program of the bounded session model MC_Api (three loaded intervals from a seeded slice of the interval universe, then two intersect/difference calls on any registers held so far), with the identities that follow from the ideal-set ghost emitted as `ident` steps; (b) seeded sessions over three parsed range texts instantiating commutativity, idempotence, A-A, (A-B)&B, the partition of A, A-(A-B)=A&B, associativity, and random chains that feed results back; every intermediate result is printed and re-parsed; distinct = distinct program text',
+        exhaustive_models=True, assumptions=COMMON_ASSUME, probe_cap=40, chunks=14),
+})
+
+PROPS.update({
+    'C06': dict(
+        models=[dict(name='MC_Tokens', module='MC_Tokens', constants=dict(MaxLen=3, Emit=True, Slice=0, Of=1), thorough=dict(MaxLen=4, Slice='SEED', Of=2),
+                     invariants=['InvSpecTotal']),
+                dict(name='MC_VText_a', module='MC_VText', constants=dict(SymbolSet='a', MaxLive=5, MaxExtra=1, Emit=True), thorough=dict(MaxLive=6),
+                     invariants=VTEXT_INVS, case_extra={'op': 'soup'})],
+        gens=[dict(scenario='soup', n=dict(quick=8000, thorough=150000)), dict(scenario='timing', n=dict(quick=65536, thorough=262144)),
+              dict(scenario='sessions', n=dict(quick=1000, thorough=20000)), dict(scenario='ranges', n=dict(quick=1500, thorough=30000))],
+        events=['soup', 'timing', 'vparse', 'rparse', 'isect', 'diff', 'any', 'all', 'minv', 'print', 'panic'],
+        rule='cases = every string of up to 3 (thorough: 4, half of the first tokens) tokens over a 26-token alphabet covering every token class (digits, numbers at and above MAX_SAFE_INTEGER and 2^64, . - + * x v ^ ~ > < = | || blank tab newline a e-acute ` - ` 1.2.3) and every string of the version-text model (exhaustive); + every operator form on numbers at the limits, lengths 255-1024 ending in 1-4 byte characters, damaged range texts and versions, token soup (seeded); each string goes through both parsers and every operation is applied to what they return, against itself and the five most recent values, and to the results; + sessions feeding results back; + the same token repeated to n..8n bytes for the time rule; build has overflow checks and debug assertions on; a panic, abort or time-out is a violation; distinct = distinct case text',
+        exhaustive_models=True, chunks=14,
+        assumptions=COMMON_ASSUME + ['absence of panics is established only on the explored inputs', 'the linear-time clause is a measured budget (50 ms + 100 us/byte; 8x input <= 30x time once a run takes 5 ms), the only wall-clock dependent clause of any check']),
+})
+
 _LEVEL = ('TLC checks the design of the operation (spec/Interval.tla) against the declarative statement, pointwise on a complete '
           'probe set, for every operand pair of the bounded universe; each enumerated pair and thousands of seeded large/irregular '
           'pairs are then executed against the real crate and every recorded call is judged by TLC against the Api postcondition. '
@@ -193,5 +217,11 @@ MANIFEST_TEXT.update({
     'C14': dict(level='Every recorded max_satisfying / min_satisfying call (parsed ranges of the bounded syntax model and seeded random texts x unsorted lists with duplicates, build-only variants and prereleases above the highest satisfying release, each list also reversed/rotated, and the empty list) is judged by TLC: the returned reference (pointer identity) is a satisfying element that no satisfying element exceeds in VCmp, None iff none satisfies, and per-element satisfies equals the specification\'s RSat on the bounds the crate built.',
                 note=_NOTE_R, design_ref='DESIGN.md section 4 (C14)', technique='trace validation (TLC) of recorded max_satisfying/min_satisfying calls against the TLA+ definition; inputs from the TLC-enumerated syntax model'),
 })
-NOT_APPLICABLE = [dict(property_id=p, reason='check under construction in this session (specification module not yet bound to the code); not claimed yet')
-                  for p in ['C06', 'C15']]
+MANIFEST_TEXT.update({
+    'C06': dict(level='Exploration driven by model-generated inputs: TLC enumerates every string of up to 3-4 tokens over an alphabet covering every token class plus every string of the version-text model; each goes through both parsers and every public operation is applied to whatever they return (against itself, against the five most recent values, and to the results), in a build with overflow checks and debug assertions; seeded generators add limit numbers under every operator form, 255-1024 byte inputs ending in multi-byte characters, damaged texts, sessions feeding results back, and repeated-token inputs up to 0.5-2 MB for the time rule. The Api state machine has no transition for a call that panics, aborts or does not return, so any such event is rejected by trace validation. The specification contributes totality and the input spaces; it says nothing about why the code cannot panic.',
+                note=_NOTE_V + ' The linear-time clause is a measured budget (the only wall-clock dependent clause); stack exhaustion and aborts are observed as death of the harness process.',
+                design_ref='DESIGN.md section 4 (C06)', technique='TLC-enumerated token strings and sessions executed against the crate under catch_unwind; trace validation against a total Api state machine (no panic transition)'),
+    'C15': dict(level='TLC checks on every session of the bounded model (three loaded intervals, two intersect/difference calls over any registers) that every register denotes its ideal set (plain set algebra on the probe universe), from which all identities of C15 follow, and derives the identities each session must honour; the programs are executed against the real crate with results fed back as operands and each derived identity, each explicit identity shape on parsed ranges, and the reusability (print / re-parse) of every intermediate result are judged by TLC on the recorded trace.',
+                note=_NOTE, design_ref='DESIGN.md section 4 (C15), 2.2', technique='TLA+ session state machine with an ideal-set ghost, model-checked with TLC; generated sessions executed against the crate and validated by TLC (trace validation)'),
+})
+NOT_APPLICABLE = []
